@@ -22,6 +22,9 @@ import (
 
 	sdkmath "cosmossdk.io/math"
 	abci "github.com/cometbft/cometbft/abci/types"
+	cryptoenc "github.com/cometbft/cometbft/crypto/encoding"
+	tmtypes "github.com/cometbft/cometbft/types"
+	cryptocodec "github.com/cosmos/cosmos-sdk/crypto/codec"
 	"github.com/cosmos/cosmos-sdk/store/prefix"
 	sdk "github.com/cosmos/cosmos-sdk/types"
 	authtypes "github.com/cosmos/cosmos-sdk/x/auth/types"
@@ -38,6 +41,7 @@ import (
 	delegationtypes "github.com/ExocoreNetwork/exocore/x/delegation/types"
 	epochstypes "github.com/ExocoreNetwork/exocore/x/epochs/types"
 	exominttypes "github.com/ExocoreNetwork/exocore/x/exomint/types"
+	operatorkeeper "github.com/ExocoreNetwork/exocore/x/operator/keeper"
 	operatortypes "github.com/ExocoreNetwork/exocore/x/operator/types"
 	oracletypes "github.com/ExocoreNetwork/exocore/x/oracle/types"
 )
@@ -50,6 +54,8 @@ const (
 	c11AVS2  = "0x00000000000000000000000000000000000c11a2"
 	c11Task2 = "0x00000000000000000000000000000000000c11b2"
 	c11Task3 = "0x00000000000000000000000000000000000c11b3"
+	c11AVS3  = "0x00000000000000000000000000000000000c11a3"
+	c11PxTok = "0x00000000000000000000000000000000000c11f1"
 )
 
 type c11Env struct {
@@ -62,12 +68,59 @@ type c11Env struct {
 	opX      sdk.AccAddress
 	taskID   uint64
 	statEp   int64
+	pxAsset  string
 }
 
 func c11Must(err error, what string) {
 	if err != nil {
 		panic("c11 setup " + what + ": " + err.Error())
 	}
+}
+
+// ---- what the consensus engine does with the validator updates of EndBlock -------------------------------------------
+
+// the validator set as CometBFT holds it, from the dogfood store
+func (c *c11Env) cometSet(ctx sdk.Context) []*tmtypes.Validator {
+	var out []*tmtypes.Validator
+	for _, v := range c.env.App.StakingKeeper.GetAllExocoreValidators(ctx) {
+		pk, err := v.ConsPubKey()
+		if err != nil {
+			continue
+		}
+		tm, err := cryptocodec.ToTmProtoPublicKey(pk)
+		if err != nil {
+			continue
+		}
+		tpk, err := cryptoenc.PubKeyFromProto(tm)
+		if err != nil {
+			continue
+		}
+		out = append(out, tmtypes.NewValidator(tpk, v.Power))
+	}
+	return out
+}
+
+// real cometbft types.ValidatorSet.UpdateWithChangeSet on (previous set, returned updates), as state.updateState does
+func c11CometAccepts(prev []*tmtypes.Validator, upd []abci.ValidatorUpdate) (ok bool) {
+	defer func() {
+		if r := recover(); r != nil {
+			ok = false
+		}
+	}()
+	for _, u := range upd {
+		if u.Power < 0 {
+			return false
+		}
+	}
+	if len(upd) == 0 {
+		return true
+	}
+	changes, err := tmtypes.PB2TM.ValidatorUpdates(upd)
+	if err != nil {
+		return false
+	}
+	vs := tmtypes.NewValidatorSet(prev)
+	return vs.UpdateWithChangeSet(changes) == nil
 }
 
 // ---- blocks under recover ------------------------------------------------------------------------------------
@@ -81,7 +134,12 @@ func (c *c11Env) blocks(n int, step time.Duration) (ok bool) {
 					g = false
 				}
 			}()
-			e.App.EndBlock(abci.RequestEndBlock{Height: e.Header.Height})
+			prev := c.cometSet(e.Ctx)
+			res := e.App.EndBlock(abci.RequestEndBlock{Height: e.Header.Height})
+			if !c11CometAccepts(prev, res.ValidatorUpdates) {
+				c.w.Count("blocks.valset-refused")
+				return false
+			}
 			e.App.Commit()
 			h := e.Header
 			h.Height++
@@ -417,10 +475,23 @@ func (c *c11Env) avsCase(sigKinds []int, inject bool, retarget bool, tags []stri
 // ---- fee distribution ---------------------------------------------------------------------------------------------
 
 func (c *c11Env) allocCase(optInSecond bool, fee int64, tags []string) {
+	c.allocCaseN(optInSecond, fee, nil, tags)
+}
+
+// extra: further stakers delegating these amounts to operator 0 (its own staker holds 101 USDT): with three and more
+// stakers the truncated fractions of the payout must still sum to at most 1
+func (c *c11Env) allocCaseN(optInSecond bool, fee int64, extra []int64, tags []string) {
 	app := c.env.App
 	ctx, _ := c.env.Ctx.CacheContext()
 	ctx = ctx.WithGasMeter(sdk.NewInfiniteGasMeter())
 	op := c.env.Operators[0]
+	for i, amt := range extra {
+		st := c.stakerAddr(90 + i)
+		asset := common.HexToAddress(c.env.AssetAddr).Bytes()
+		c11Must(app.AssetsKeeper.PerformDepositOrWithdraw(ctx, &assetskeeper.DepositWithdrawParams{ClientChainLzID: 101, Action: assetstypes.DepositLST, AssetsAddress: asset, StakerAddress: st, OpAmount: sdkmath.NewInt(amt)}), "alloc deposit")
+		c11Must(app.DelegationKeeper.DelegateTo(ctx, &delegationtypes.DelegationOrUndelegationParams{ClientChainID: 101, AssetsAddress: asset, StakerAddress: st, OperatorAddress: op, OpAmount: sdkmath.NewInt(amt),
+			LzNonce: 500000 + uint64(c.n*10+i), TxHash: common.BytesToHash(seedBytes("c11al", c.n*10+i))}), "alloc delegate")
+	}
 	if optInSecond {
 		_ = app.OperatorKeeper.OptIn(ctx, op, c11AVS2)
 	}
@@ -464,7 +535,7 @@ func (c *c11Env) allocCase(optInSecond bool, fee int64, tags []string) {
 		return nil
 	})
 	c.emit(cApp("PAlloc", cZ(fee), cList(apps)), obs, true,
-		map[string]interface{}{"kind": "fee-distribution", "second_avs": optInSecond, "fee": fee, "appearances": appsJ}, tags)
+		map[string]interface{}{"kind": "fee-distribution", "second_avs": optInSecond, "fee": fee, "extra_stakers": extra, "appearances": appsJ}, tags)
 	c.w.Count("kind=alloc")
 }
 
@@ -550,6 +621,126 @@ func (c *c11Env) slashUndelCase(native bool, fracs []sdkmath.LegacyDec, powers [
 			"completable_after_each_slash": actualsJ, "records_left_after_maturity": len(left)}, tags)
 	c.w.Count("kind=slash-undel")
 	c.w.Count(fmt.Sprintf("slashundel.slashes=%d", len(props)))
+}
+
+// ---- the validator set at a dogfood epoch end ------------------------------------------------------------------------
+
+// route: 0 = every operator sends MsgOptOutOfAVS, 1 = every operator's own staker undelegates below the minimum self
+// delegation, 2 = every validator is jailed; keep = number of operators left alone (0 = the whole set is emptied)
+func (c *c11Env) valsetCase(route int, keep int, tags []string) {
+	app := c.env.App
+	cx := mustCache(c.env.Ctx)
+	chainID := avstypes.ChainIDWithoutRevision(c.env.ChainID)
+	avsAddr := avstypes.GenerateAVSAddr(chainID)
+	ms := operatorkeeper.NewMsgServerImpl(app.OperatorKeeper)
+	asset := common.HexToAddress(c.env.AssetAddr).Bytes()
+	var steps []string
+	for i, op := range c.env.Operators {
+		if i < keep {
+			continue
+		}
+		var cls string
+		switch route {
+		case 0:
+			cls = c11Class(func() error {
+				_, err := ms.OptOutOfAVS(sdk.WrapSDKContext(cx), &operatortypes.OptOutOfAVSReq{FromAddress: op.String(), AvsAddress: avsAddr})
+				return err
+			})
+			steps = append(steps, fmt.Sprintf("MsgOptOutOfAVS(%d)=%s", i, cls))
+		case 1:
+			amt := (c.env.Cfg.Operators[i].Deposit - 99) * 1_000_000
+			cls = c11Class(func() error {
+				return app.DelegationKeeper.UndelegateFrom(cx, &delegationtypes.DelegationOrUndelegationParams{ClientChainID: 101, LzNonce: 600000 + uint64(c.n*10+i), AssetsAddress: asset,
+					StakerAddress: op.Bytes(), OperatorAddress: op, OpAmount: sdkmath.NewInt(amt), TxHash: common.BytesToHash(seedBytes("c11vs", c.n*10+i))})
+			})
+			steps = append(steps, fmt.Sprintf("undelegate(self,%d,%d)=%s", i, amt, cls))
+		default:
+			cls = c11Class(func() error {
+				found, wk, err := app.OperatorKeeper.GetOperatorConsKeyForChainID(cx, op, chainID)
+				if err != nil || !found || wk == nil {
+					return fmt.Errorf("no key")
+				}
+				app.OperatorKeeper.Jail(cx, wk.ToConsAddr(), chainID)
+				return nil
+			})
+			steps = append(steps, fmt.Sprintf("jail(%d)=%s", i, cls))
+		}
+	}
+	// the block in which the dogfood epoch ends: epochs BeginBlocker with all hooks, then the dogfood EndBlock
+	id := app.StakingKeeper.GetEpochIdentifier(cx)
+	ei, _ := app.EpochsKeeper.GetEpochInfo(cx, id)
+	hd := cx.BlockHeader()
+	hd.Height++
+	hd.Time = ei.CurrentEpochStartTime.Add(ei.Duration + time.Second)
+	if !hd.Time.After(cx.BlockTime()) {
+		hd.Time = cx.BlockTime().Add(ei.Duration + time.Second)
+	}
+	bx := cx.WithBlockHeader(hd)
+	prev := c.cometSet(bx)
+	var upd []abci.ValidatorUpdate
+	obs := c11Class(func() error {
+		app.EpochsKeeper.BeginBlocker(bx)
+		app.StakingKeeper.BeginBlock(bx)
+		upd = app.StakingKeeper.EndBlock(bx)
+		return nil
+	})
+	eligible := 0
+	ops, _ := app.OperatorKeeper.GetActiveOperatorsForChainID(bx, chainID)
+	if pw, err := app.OperatorKeeper.GetVotePowerForChainID(bx, ops, chainID); err == nil {
+		for _, p := range pw {
+			if p >= 1 {
+				eligible++
+			}
+		}
+	}
+	accepted := obs == "ROk" && c11CometAccepts(prev, upd)
+	c.emit(cApp("PValset", cNat(len(prev)), cNat(eligible)), obs, accepted,
+		map[string]interface{}{"kind": "validator-set-epoch-end", "route": []string{"all-opt-out", "all-below-min-self-delegation", "all-jailed"}[route], "kept": keep,
+			"steps": steps, "validators_before": len(prev), "eligible_now": eligible, "updates": len(upd), "cometbft_accepts": accepted}, tags)
+	c.w.Count("kind=valset")
+}
+
+// ---- stored price strings and the voting-power update --------------------------------------------------------------------
+
+// the price asset's latest round holds `price` ("" = the round was closed without submissions: GrowRoundID on a token
+// without any price); an AVS lists the asset; the operator epoch hook recomputes the voting power
+func (c *c11Env) priceStringCase(price string, viaGrow bool, tags []string) {
+	app := c.env.App
+	cx := mustCache(c.env.Ctx)
+	tokenID := uint64(app.OracleKeeper.GetParams(cx).GetTokenIDFromAssetID(c.pxAsset))
+	if tokenID == 0 {
+		c.w.Count("pricestring.no_token")
+		return
+	}
+	// the operator serves the AVS before the round closes (opt-in is transaction level: a panic there is recovered)
+	if cls := c11Class(func() error { return app.OperatorKeeper.OptIn(cx, c.env.Operators[0], c11AVS3) }); cls != "ROk" {
+		c.w.Count("pricestring.optin=" + cls)
+		return
+	}
+	stored := c11Class(func() error {
+		if viaGrow {
+			app.OracleKeeper.GrowRoundID(cx, tokenID)
+			return nil
+		}
+		if !app.OracleKeeper.AppendPriceTR(cx, tokenID, oracletypes.PriceTimeRound{Price: price, Decimal: 8, RoundID: app.OracleKeeper.GetNextRoundID(cx, tokenID)}) {
+			return fmt.Errorf("round mismatch")
+		}
+		return nil
+	})
+	if stored != "ROk" {
+		c.w.Count("pricestring.store=" + stored)
+		return
+	}
+	latest, _ := app.OracleKeeper.GetPriceTRLatest(cx, tokenID)
+	v, okNum := new(big.Int).SetString(latest.Price, 10)
+	obs := c11Class(func() error { return app.OperatorKeeper.UpdateVotingPower(cx, c11AVS3) })
+	val := "0%Z"
+	if okNum {
+		val = cZbig(v)
+	}
+	c.emit(cApp("PPriceString", cBool(okNum), val), obs, true,
+		map[string]interface{}{"kind": "price-string-voting-power", "stored_price": latest.Price, "via_grow_round": viaGrow}, tags)
+	c.w.Count("kind=price-string")
 }
 
 // ---- voting power with extreme amounts ----------------------------------------------------------------------------
@@ -772,6 +963,17 @@ func runC11(a *Args) error {
 		TaskResponsePeriod: 2, TaskStatisticalPeriod: 1, TaskChallengePeriod: 2, ThresholdPercentage: 60,
 		StartingEpoch: uint64(ep.CurrentEpoch + 1), OptInOperators: []string{env.Operators[0].String()}, TaskTotalPower: sdk.ZeroDec()}), "task")
 	c.statEp = ep.CurrentEpoch + 1 + 2 + 1
+	// a gateway-registered LST whose oracle token never gets a price, listed by a third AVS
+	c11Must(app.AssetsKeeper.SetStakingAssetInfo(ctx, &assetstypes.StakingAssetInfo{
+		AssetBasicInfo:     assetstypes.AssetInfo{Name: "PriceLess", Symbol: "PXL", Address: c11PxTok, Decimals: 6, LayerZeroChainID: 101, MetaInfo: "px"},
+		StakingTotalAmount: sdkmath.NewInt(0)}), "px asset")
+	_, c.pxAsset = assetstypes.GetStakerIDAndAssetIDFromStr(101, "", c11PxTok)
+	pxi := &oracletypes.OracleInfo{AssetID: c.pxAsset}
+	pxi.Token.Name, pxi.Token.Decimal, pxi.Chain.Name, pxi.Feeder.Interval = "PXL", "8", "Ethereum", "10"
+	c11Must(app.OracleKeeper.RegisterNewTokenAndSetTokenFeeder(ctx, pxi), "px oracle token")
+	c11Must(app.AVSManagerKeeper.UpdateAVSInfo(ctx, &avstypes.AVSRegisterOrDeregisterParams{
+		AvsName: "c11avs3", Action: avskeeper.RegisterAction, EpochIdentifier: epochstypes.HourEpochID, AvsAddress: c11AVS3,
+		AssetID: []string{env.AssetID, c.pxAsset}, TaskAddr: c11Task3, UnbondingPeriod: 7, MinSelfDelegation: 0}), "avs3")
 	// the NST asset gets an oracle token and feeder, as registerToken of the assets precompile does
 	oi := &oracletypes.OracleInfo{AssetID: c.nstAsset}
 	oi.Token.Name, oi.Token.Decimal, oi.Chain.Name, oi.Feeder.Interval = "NSTETH", "0", "Ethereum", "10"
@@ -786,7 +988,9 @@ func runC11(a *Args) error {
 	for i, iv := range []string{"0", ""} {
 		oi := &oracletypes.OracleInfo{AssetID: fmt.Sprintf("0x%040x_0x65", 0xc11000+i)}
 		oi.Token.Name, oi.Token.Decimal, oi.Chain.Name, oi.Feeder.Interval = fmt.Sprintf("IV%d", i), "8", "Ethereum", iv
-		obs := c11Class(func() error { return app.OracleKeeper.RegisterNewTokenAndSetTokenFeeder(env.Ctx.WithGasMeter(sdk.NewInfiniteGasMeter()), oi) })
+		obs := c11Class(func() error {
+			return app.OracleKeeper.RegisterNewTokenAndSetTokenFeeder(env.Ctx.WithGasMeter(sdk.NewInfiniteGasMeter()), oi)
+		})
 		later := c.blocks(12, time.Second)
 		if !later {
 			obs = "RPanic"
@@ -874,11 +1078,28 @@ func runC11(a *Args) error {
 	c.slashUndelCase(false, []sdkmath.LegacyDec{d6, d857}, []int64{2, 2}, nil)
 	c.slashUndelCase(true, []sdkmath.LegacyDec{d6, d6, d6}, []int64{1, 2, 3}, nil)
 	c.slashUndelCase(false, []sdkmath.LegacyDec{sdkmath.LegacyOneDec(), d6}, []int64{5, 1}, nil)
+	// (4c) stored price strings, then the voting-power update of an AVS that lists the asset: the round closed without
+	//      any submission (GrowRoundID records an empty price), non-numeric, zero, negative, huge
+	c.priceStringCase("", true, nil)
+	for _, ps := range []string{"", "abc", "0", "-5", "12.5", "1", "99999999999999999999999999999999999999"} {
+		c.priceStringCase(ps, false, nil)
+	}
+	// (4d) distribution epoch end with three and more stakers of one operator whose shares are 4:1:1, 1:1:1, ...
+	c.allocCaseN(false, 1_000_000, []int64{25_250_000, 25_250_000}, nil)
+	c.allocCaseN(false, 1_000_003, []int64{50_500_000, 33_666_667, 20_200_000}, nil)
+	c.allocCaseN(true, 999, []int64{101_000_000, 101_000_000}, nil)
 	// (5) extreme amounts: deposit 2^130 of the asset, delegate, operator epoch hook (known finding, not repaired)
 	c.votingPowerCase(130, []string{"kf-C11-extreme-amount-overflow"})
 	c.votingPowerCase(100, nil)
 	seeds := c.txBytes()
 	c.abciCase(seeds, nil)
+
+	// (6) the validator set at the dogfood epoch end: the three routes that empty it (known finding) and the same routes
+	//     with one operator left alone (accepted)
+	for route := 0; route < 3; route++ {
+		c.valsetCase(route, 1, nil)
+		c.valsetCase(route, 0, []string{"kf-C11-empty-validator-set"})
+	}
 
 	// ---------------- random stream ----------------
 	slashSeq := 0
@@ -930,10 +1151,21 @@ func runC11(a *Args) error {
 			c.slashUndelCase(rng.Intn(2) == 0, fr, pw, nil)
 		case k < 84:
 			c.delegEndCase(nil)
+		case k < 85:
+			c.priceStringCase([]string{"", "x", "0", "-1", "7", "1e5", " 5"}[rng.Intn(7)], rng.Intn(4) == 0, nil)
 		case k < 86:
 			c.votingPowerCase([]uint{60, 100, 120, 126, 127}[rng.Intn(5)], nil)
 		case k < 90:
-			c.allocCase(rng.Intn(2) == 0, []int64{0, 1, 999, 1_000_003, 5_000_000_000}[rng.Intn(5)], nil)
+			if rng.Intn(2) == 0 {
+				ne := 2 + rng.Intn(3)
+				extra := make([]int64, ne)
+				for i := range extra {
+					extra[i] = int64(1+rng.Intn(6)) * 25_250_000 / int64(1+rng.Intn(3))
+				}
+				c.allocCaseN(rng.Intn(3) == 0, []int64{1, 999, 1_000_003, 5_000_000_000}[rng.Intn(4)], extra, nil)
+			} else {
+				c.allocCase(rng.Intn(2) == 0, []int64{0, 1, 999, 1_000_003, 5_000_000_000}[rng.Intn(5)], nil)
+			}
 		default:
 			c.abciCase(seeds, nil)
 		}
